@@ -57,6 +57,8 @@ type Instance struct {
 	LabelID   osm.NodeID
 	LabelP    Pt
 	LabelRole string
+	// NodeScheme names how the ring nodes are numbered (see applyNodeScheme)
+	NodeScheme string
 	// NodeV0: located way nodes carry version 0 (location known, version not), else version 1
 	NodeV0 bool
 }
@@ -261,7 +263,58 @@ func finishInstance(r *gen.R, t *Truth, cuts [][]RingCut) *Instance {
 			in.LabelP.X = 2
 		}
 	}
+	in.applyNodeScheme(r, []string{"pos", "neg", "mix", "small", "big"}[weighted(r, 55, 15, 15, 8, 7)])
+	if in.Label && r.Chance(0.3) {
+		// the node member shares its number with one of the way members (different type)
+		cand := osm.NodeID(in.Pieces[r.Intn(np)].ID)
+		clash := false
+		for _, v := range in.Verts {
+			if v.ID == cand {
+				clash = true
+			}
+		}
+		if !clash {
+			in.LabelID = cand
+		}
+	}
 	return in
+}
+
+// applyNodeScheme renumbers the ring nodes (way and relation ids stay as they are): pos
+// (positive, as drawn), neg (all negative, as in JOSM / ogr2osm files), mix (some negative),
+// small (ids around 0: -k..k without 0), big (beyond 2^40). The node member keeps a positive id
+// different from every ring node.
+func (in *Instance) applyNodeScheme(r *gen.R, scheme string) {
+	in.NodeScheme = scheme
+	n := len(in.Verts)
+	switch scheme {
+	case "neg":
+		for i := range in.Verts {
+			in.Verts[i].ID = -in.Verts[i].ID
+		}
+	case "mix":
+		for i := range in.Verts {
+			if r.Bool() {
+				in.Verts[i].ID = -in.Verts[i].ID
+			}
+		}
+	case "small":
+		var ids []osm.NodeID
+		for k := 1; len(ids) < n; k++ {
+			ids = append(ids, osm.NodeID(k), osm.NodeID(-k))
+		}
+		ids = ids[:n]
+		r.Shuffle(n, func(i, j int) { ids[i], ids[j] = ids[j], ids[i] })
+		for i := range in.Verts {
+			in.Verts[i].ID = ids[i]
+		}
+		in.LabelID = osm.NodeID(n + 10)
+	case "big":
+		off := osm.NodeID(1)<<40 + osm.NodeID(r.Int64Range(0, 1<<45))
+		for i := range in.Verts {
+			in.Verts[i].ID += off
+		}
+	}
 }
 
 var (
@@ -496,6 +549,7 @@ func (in *Instance) Describe() map[string]any {
 		"relation_tags":                     in.Tags,
 		"members_in_order":                  members,
 		"shape":                             in.Shape(),
+		"node_id_scheme":                    in.NodeScheme,
 		"located_way_nodes_version":         map[bool]int{true: 0, false: 1}[in.NodeV0],
 	}
 }
